@@ -158,3 +158,20 @@ package sortints
 //@   ensures forall k in 0..len(*s): in((*s)[k], old(*s)) || in((*s)[k], x)
 //@   ensures subset(old(*s), *s) && subset(x, *s)
 //@   opt assumed
+
+// Range: {start + t*step : t >= 0} inside [start,end) for step > 0, inside (end,start] for step < 0
+//@ func Range
+//@   requires -1099511627776 <= start && start <= 1099511627776 && -1099511627776 <= end && end <= 1099511627776 && -1099511627776 <= step && step <= 1099511627776
+//@   panics when (end < start && step > 0) || (end > start && step < 0) || (end != start && step == 0)
+//@   ensures sorted(result) && fresh(result)
+//@   ensures step > 0 ==> (forall k in 0..len(result): result[k] == start + k * step && result[k] < end) && start + len(result) * step >= end
+//@   ensures step < 0 ==> (forall k in 0..len(result): result[k] == start + (len(result) - 1 - k) * step && result[k] > end) && start + len(result) * step <= end
+//@   ensures end == start ==> len(result) == 0
+//@   loop 1
+//@     invariant 0 <= i && i <= n && len(tmp) == n && step < 0 && end < start && n >= 1 && start + (n-1) * step > end && start + n * step <= end && n <= 2199023255552
+//@     invariant forall k in n-i..n: tmp[k] == start + (n - 1 - k) * step
+//@     decreases n - i
+//@   loop 2
+//@     invariant step > 0 && start < end && i == start + len(tmp) * step && (len(tmp) == 0 || i - step < end) && len(tmp) <= 2199023255552
+//@     invariant forall k in 0..len(tmp): tmp[k] == start + k * step && tmp[k] < end
+//@     decreases end - i
